@@ -3,7 +3,7 @@
    Arrays are (length, index function) over Q; np.pad is an arbitrary function with the contract
    [np_contract]; exp is an arbitrary positive function. *)
 From Coq Require Import ZArith QArith List Bool Lia.
-From PB Require Import lib.PySlice C18.Model C18.SumQ C18.PadProofs C18.ConvProofs C18.Model2D C18.Proofs2D C18.DType C18.DTypeProofs C18.OwProofs C18.LsqMin C18.LinProofs C18.AffProofs.
+From PB Require Import lib.PySlice C18.Model C18.SumQ C18.PadProofs C18.ConvProofs C18.Model2D C18.Proofs2D C18.DType C18.DTypeProofs C18.OwProofs C18.LsqMin C18.LinProofs C18.AffProofs C18.ExtLin.
 Import ListNotations.
 Open Scope Z_scope.
 
@@ -422,3 +422,33 @@ Theorem C18_extrapolate_affine_equivariant : forall (y : vec) (p : Z) (ew : opti
   end.
 Proof. exact pad_extrapolate_affine. Qed.
 Print Assumptions C18_extrapolate_affine_equivariant.
+
+(* pad_edges 'extrapolate' is a LINEAR map of arbitrary data (every length, pad length, windows None/scalar/
+   per side/1/larger than N/invalid, scalars a, b): padding a*y1 + b*y2 gives a*pad(y1) + b*pad(y2) point by
+   point, fitted edges included, and the combination is rejected exactly when the parts are (same error). *)
+Theorem C18_extrapolate_linear : forall (y1 y2 : vec) (p : Z) (ew : option (list Z)) (a b : Q),
+  vlen y1 = vlen y2 ->
+  match pad_edges y1 p (Extrapolate ew), pad_edges y2 p (Extrapolate ew),
+        pad_edges (vlin a b y1 y2) p (Extrapolate ew) with
+  | Ok o1, Ok o2, Ok o => vlen o = vlen o1 /\ vlen o = vlen o2 /\
+                          forall i, (vget o i == a * vget o1 i + b * vget o2 i)%Q
+  | Err e1, Err e2, Err e => e1 = e /\ e2 = e
+  | _, _, _ => False
+  end.
+Proof. exact pad_extrapolate_linear. Qed.
+Print Assumptions C18_extrapolate_linear.
+
+(* ... and so is padded_convolve in its default mode 'extrapolate', for every kernel: with
+   C18_convolve_index_modes_linear the smoothing helper is linear in the data in every modelled mode
+   except 'constant' with a non-zero fill value *)
+Theorem C18_convolve_extrapolate_linear : forall (y1 y2 k : vec) (ew : option (list Z)) (a b : Q),
+  vlen y1 = vlen y2 ->
+  match padded_convolve y1 k (Extrapolate ew), padded_convolve y2 k (Extrapolate ew),
+        padded_convolve (vlin a b y1 y2) k (Extrapolate ew) with
+  | Ok o1, Ok o2, Ok o => vlen o = vlen o1 /\ vlen o = vlen o2 /\
+                          forall i, (vget o i == a * vget o1 i + b * vget o2 i)%Q
+  | Err e1, Err e2, Err e => e1 = e /\ e2 = e
+  | _, _, _ => False
+  end.
+Proof. exact convolve_extrapolate_linear. Qed.
+Print Assumptions C18_convolve_extrapolate_linear.
